@@ -47,12 +47,16 @@ def check_inv(st, adt_def, form):
     a, b = st.num.rng(form)
     if not (a >= lo and b <= hi):
         a, b = st.num.rng2(form)
+    r = st.num.residue(form, mod) if mod > 1 else None
+    if mod > 1 and r == rem:
+        # on the grid of the type: the interval ends can be moved to the nearest grid points
+        a = a + ((rem - a) % mod)
+        b = b - ((b - rem) % mod)
     ok = a >= lo and b <= hi
     why = ''
     if not ok:
         why = f"count {form!r} in [{a}, {b}] not within [{lo}, {hi}]"
     if ok and mod > 1:
-        r = st.num.residue(form, mod)
         if r != rem:
             ok = False
             why = f"count {form!r} not proved = {rem} (mod {mod})"
@@ -179,9 +183,50 @@ class Spec:
                 ok, why = check_inv(st, d, f.form)
             else:
                 ok, why = False, f"field is {f!r}"
+            if not ok and isinstance(f, VInt):
+                # not (yet) provably in range: decided where the value leaves the library (check_exit) - an
+                # out-of-range temporary that is range-checked before it is returned is not a result
+                st.notes['inv_pending'] = st.notes.get('inv_pending', ()) + ((d, f.form, body['def'], bbi, sp, why),)
+                return
             interp.oblige('R-inv', body['def'], bbi, f"construct {d}", sp, ok, st, why)
         elif d == 'format::Field':
             pass
+
+    def check_exit(self, interp, st, v):
+        """the values of the six types that a root returns satisfy their invariant; constructions whose check was
+        deferred are failed here if their value escapes, discharged otherwise"""
+        pend = list(st.notes.get('inv_pending', ()))
+        if not pend:
+            return
+        escaped = set()
+
+        def walk(x, depth=0):
+            if depth > 6:
+                return
+            if isinstance(x, VAdt):
+                d = interp.facts.types.get(x.ty, {}).get('def')
+                if d in INV and x.single() is not None:
+                    f = x.variants[x.single()][0]
+                    if d == 'oracle::Date' and isinstance(f, VAdt) and f.single() is not None:
+                        f = f.variants[f.single()][0]
+                    if isinstance(f, VInt):
+                        ok, why = check_inv(st, d, f.form)
+                        if not ok:
+                            for i, pe in enumerate(pend):
+                                if pe[0] == d and (pe[1] == f.form or st.num.eq0(pe[1].sub(f.form))):
+                                    escaped.add(i)
+                    return
+                for fs in x.variants.values():
+                    for y in fs:
+                        walk(y, depth + 1)
+            elif isinstance(x, VTuple):
+                for y in x.elems:
+                    walk(y, depth + 1)
+            elif isinstance(x, VRef) and x.root[0] == 'val':
+                walk(x.root[1], depth + 1)
+        walk(v)
+        for i, (d, form, fn, bbi, sp, why) in enumerate(pend):
+            interp.oblige('R-inv', fn, bbi, f"construct {d}", sp, i not in escaped, st, why + ' (and the value is returned)')
 
     # functions whose contract requires an exact integer -> float conversion (C16: nearest second, exact distance)
     EXACT_CAST_FNS = {'oracle::Date::add_days', 'oracle::Date::sub_date'}
